@@ -80,6 +80,13 @@ func errClass(err error) string {
 
 // Execute runs the programs concurrently against st and returns the recorded history.
 func Execute(c CCase, st kvs.Storage) []HOp {
+	return ExecuteWith(c, func(int) kvs.Storage { return st }, nil, nil)
+}
+
+// ExecuteWith is Execute with a storage client per thread and callbacks around the threads (wire-scheduled runs):
+// run is called once every thread goroutine exists, and must let them go by closing the channel it gets; done(ti) is
+// called when thread ti has finished its program.
+func ExecuteWith(c CCase, stFor func(ti int) kvs.Storage, run func(start chan struct{}), done func(ti int)) []HOp {
 	var stamp atomic.Int64
 	var mu sync.Mutex
 	var hist []HOp
@@ -91,6 +98,10 @@ func Execute(c CCase, st kvs.Storage) []HOp {
 		wg.Add(1)
 		go func(ti int, prog []COp) {
 			defer wg.Done()
+			if done != nil {
+				defer done(ti)
+			}
+			st := stFor(ti)
 			seen := map[string][]string{}
 			see := func(k, v string) {
 				if v != "" {
@@ -229,7 +240,11 @@ func Execute(c CCase, st kvs.Storage) []HOp {
 			mu.Unlock()
 		}(ti, prog)
 	}
-	close(start)
+	if run != nil {
+		run(start)
+	} else {
+		close(start)
+	}
 	wg.Wait()
 	sort.SliceStable(hist, func(i, j int) bool { return hist[i].Call < hist[j].Call })
 	return hist
